@@ -433,6 +433,9 @@ def shapes_of(prog, body, op, site=None, stack=(), depth=0, penv=None):
                                     out.add("?")
                     if not got:
                         out.add("?")
+                elif d == "core::ops::try_trait::FromResidual::from_residual" and o.site.node["dst"]["l"] == 0 and body.ret_ty.replace("core::option::", "").startswith("Option<"):
+                    # `x?` on an Option in a function returning an Option: the early return is None
+                    out.add(project("None", o.fields) if o.fields else "None")
                 elif d == "core::option::Option::map":
                     for x in shapes_of(prog, body, o.site.node["args"][0], o.site, stack, depth + 1, penv):
                         out.add(project(("Some", "v") if isinstance(x, tuple) and x[0] == "Some" else x, o.fields))
